@@ -58,6 +58,12 @@ def main():
             big_io(chk, 200 if tier == "quick" else 3000, want=mod.BIG_IO)
             chk.rule += ("; plus large inputs (many records, one field of 1 KiB-128 KiB ± 1, the small input pushed across offset 65536/131072, a long "
                          "unterminated tail): the real binary vs the library run in-process with reads of 1-4096 bytes and short writes")
+        if getattr(mod, "LYING", None):
+            # stdin is a procfs-like file (st_size = 0, content present): same result as through a pipe (cases.lying_size_stdin)
+            from cases import lying_size_stdin
+            from common import build_tuc
+            lying_size_stdin(chk, build_tuc(release=False), 120 if tier == "quick" else 1500, want=mod.LYING)
+            chk.rule += "; plus stdin given as a file that reports size 0 yet has content (/proc/<pid>/environ of a helper, kernel files) vs the same bytes through a pipe"
         if tier == "thorough" and not os.environ.get("VERIF_NO_COVGATE"):
             # the coverage gate: code of the property's anchor files that the correspondence never executes (tool/covgate.py)
             import covgate
